@@ -81,6 +81,21 @@ theorem encodeParam_obj_bad (o : Obj) (ho : o.ok) (hint : o.isInt) (values : Lis
       rotate_left
       · simp [lookupV, hl, Obj.toParam, encodeParam, encodeDop, bind, run_bind, run_modifyS, run_raise]
         rfl
+    | pair n x =>
+      refine ⟨.encode, ?_, ?_, Or.inl rfl⟩
+      rotate_left
+      · simp [lookupV, hl, Obj.toParam, encodeParam, encodeDop, bind, run_bind, run_modifyS, run_raise]
+        rfl
+    | keyed k x =>
+      refine ⟨.encode, ?_, ?_, Or.inl rfl⟩
+      rotate_left
+      · simp [lookupV, hl, Obj.toParam, encodeParam, encodeDop, bind, run_bind, run_modifyS, run_raise]
+        rfl
+    | nokey x =>
+      refine ⟨.encode, ?_, ?_, Or.inl rfl⟩
+      rotate_left
+      · simp [lookupV, hl, Obj.toParam, encodeParam, encodeDop, bind, run_bind, run_modifyS, run_raise]
+        rfl
     | atom a =>
       simp only at hp
       have hacc : o.accepts a = false := by
